@@ -1,0 +1,66 @@
+//go:build verif
+
+// Machine-checked contracts (Gobra-style //@ comments) for the verification harness in /verif.
+// This file contains no code; it is compiled only under the build tag "verif".
+package blockchain
+
+// ---------------------------------------------------------------------------------------------
+// fast sync (C13): a block is executed only after the NEXT block's last commit verified it
+
+// every block held by a requester of the pool is complete (established by AddBlock)
+//@ pred wfPool(pool *BlockPool) = pool != nil && pool.requesters != nil && pool.peers != nil \
+//@      && forall(h, Int, has(pool.requesters, h) && pool.requesters[h] != nil && pool.requesters[h].block != nil ==> wfBlock(pool.requesters[h].block))
+
+//@ func (*bpRequester).setBlock
+//@   props C13 C08
+//@   requires bpr != nil
+//@   assigns  bpr.block, bpr.mtx.*
+//@   ensures  [only-assigned-peer-and-once] result == (old(bpr.block) == nil && old(bpr.peerID) == peerID)
+//@   ensures  result ==> bpr.block == block
+//@   ensures  !result ==> bpr.block == old(bpr.block)
+
+//@ func (*bpRequester).getBlock
+//@   props C13
+//@   requires bpr != nil
+//@   noalloc
+//@   assigns  bpr.mtx.*
+//@   ensures  result == bpr.block
+
+//@ func (*BlockPool).AddBlock
+//@   props C13 C08
+//@   requires pool != nil
+//@   invariant-assumed wfPool(pool)
+//@   atcall setBlock assert [filed-under-its-own-height-and-complete] wfBlock(block) && arg_block == block && arg_bpr == pool.requesters[block.Header.Height] && arg_peerID == peerID
+//@   ensures  [incomplete-block-ignored] !old(wfBlock(block)) ==> calls(setBlock) == 0
+
+//@ func (*BlockPool).PeekTwoBlocks
+//@   props C13 C08
+//@   requires pool != nil
+//@   invariant-assumed wfPool(pool)
+//@   noalloc
+//@   assigns  pool.mtx.*, alloftype(sync.Mutex)
+//@   ensures  [first-is-pool-height] first != nil ==> has(pool.requesters, pool.height) && first == pool.requesters[pool.height].block && wfBlock(first)
+//@   ensures  [second-is-next-height] second != nil ==> has(pool.requesters, pool.height + 1) && second == pool.requesters[pool.height + 1].block && wfBlock(second)
+
+//@ ghost gFirst Ref
+//@ ghost gSecond Ref
+//@ ghost gVerified Bool
+//@ ghost gParts Ref
+
+//@ func (*BlockchainReactor).poolRoutine
+//@   props C13 C08
+//@   requires bcR != nil && bcR.pool != nil && bcR.config != nil && bcR.Switch != nil
+//@   aborts when [where-executing-a-verified-block-fails] calls(blockExecuter) >= 1
+//@   aborts when [where-pool-bookkeeping-aborts] calls(PopRequest) >= 1 || calls(RedoRequest) >= 1
+//@   atcall PeekTwoBlocks set gFirst = result0
+//@   atcall PeekTwoBlocks set gSecond = result1
+//@   atcall PeekTwoBlocks set gVerified = false
+//@   atcall MakePartSet set gParts = result
+//@   atcall blockVerifier assert [verify-first-with-the-commit-in-second] arg0.Hash == blockHashOf(gFirst) && arg1 == as(gFirst, *types.Block).Header.Height && arg2 == as(gSecond, *types.Block).LastCommit
+//@   atcall blockVerifier assert [block-id-binds-the-content] gParts != nil && arg0.PartsHeader.Total == as(gParts, *types.PartSet).total && arg0.PartsHeader.Hash == as(gParts, *types.PartSet).hash
+//@   atcall blockVerifier set gVerified = result == nil
+//@   atcall PopRequest assert [pop-only-verified] gVerified
+//@   atcall RedoRequest assert [redo-only-unverified] !gVerified && arg_height == as(gFirst, *types.Block).Header.Height
+//@   atcall blockExecuter assert [execute-only-verified-first-block] gVerified && arg0 == gFirst && arg1 == gParts && arg2 == as(gSecond, *types.Block).LastCommit && calls(PopRequest) >= 1
+//@   loop 0 invariant bcR != nil && bcR.pool != nil && bcR.config != nil && bcR.Switch != nil
+//@   loop 1 invariant bcR != nil && bcR.pool != nil && bcR.config != nil && bcR.Switch != nil && 0 <= i
